@@ -478,6 +478,33 @@ def unusedOutputs (p0 p : Program) (tops : List String) : List (String × List S
   let table := table.filter (fun e => !tops.contains e.1)
   usedOutsLoop p (p.callables.length + 2) (topPipes.map (·.name)) table
 
+/-- one level of the frontier walk of `usedOutsLoop`: the visit of one pipeline -/
+def visitPipe (p : Program) (acc : List String × List (String × List String)) (name : String) :
+    List String × List (String × List String) :=
+  match p.find? name with
+  | some pipe =>
+    let called := pipe.calls.foldl (fun a k =>
+      match p.find? k.decId with
+      | some d => if d.isPipe && !a.contains d.name then a ++ [d.name] else a
+      | none => a) acc.1
+    (pipeCallRefs p pipe).foldl (useRef p pipe) (called, acc.2)
+  | none => acc
+
+/-- `usedOutsLoop` with explicit exhaustion: `none` when the fuel runs out while there
+are still pipelines to visit and entries in the table -/
+def usedOutsLoopO (p : Program) : Nat → List String → List (String × List String) → Option (List (String × List String))
+  | 0, used, outs => if used.isEmpty || outs.isEmpty then some outs else none
+  | fuel + 1, used, outs =>
+    if used.isEmpty || outs.isEmpty then some outs
+    else usedOutsLoopO p fuel (used.foldl (visitPipe p) (([] : List String), outs)).1
+           (used.foldl (visitPipe p) (([] : List String), outs)).2
+
+def unusedOutputsO (p0 p : Program) (tops : List String) : Option (List (String × List String)) :=
+  let topPipes := p.callables.filter (fun c => c.isPipe && tops.contains c.name)
+  let table := topPipes.foldl (fun acc t => populate p0 p (p.callables.length + 1) t.name acc) []
+  let table := table.filter (fun e => !tops.contains e.1)
+  usedOutsLoopO p (p.callables.length + 2) (topPipes.map (·.name)) table
+
 def removeOutsOf (outs : List String) (c : Callable) : Callable :=
   outs.foldl (fun c o => { c with outs := removeFirstOut o c.outs, ret := removeFirstBind o c.ret }) c
 
